@@ -221,6 +221,19 @@ def s2(chk: Check, proj: Project, w, m, cls) -> None:
     chk.ob("S2", "component_registry:_register_to_library:tag-installed-on-every-registration", m.loc(rt[0]) if rt else m.loc(rl), okt,
            "register_tag(...) runs unconditionally for every registered component" if okt else
            f"register_tag(...) is skipped when `{' and '.join(('' if pol else 'not ') + t for t, pol in cond_atoms(enclosing_stmt(rt[0]))) if rt else '?'}`: after the last user of a tag was unregistered (which deletes the tag from the Library) a later register() of a component needing that tag leaves the Library WITHOUT the tag - all() lists the component, the template tag does not exist")
+    # all() answers with the registry's CONTENT, not with a handle on its state: a fresh dict per call
+    al = m.func("ComponentRegistry.all")
+    chk.analysed(fkey(m, al))
+    rets = [r for r in stmts(al) if isinstance(r, ast.Return) and r.value is not None]
+    def _fresh(v: ast.expr) -> bool:
+        if isinstance(v, ast.Name):
+            d = [x for _s, x in assignments(al, v.id) if x is not None]
+            return bool(d) and all(_fresh(x) for x in d)
+        return isinstance(v, (ast.DictComp, ast.Dict)) or (isinstance(v, ast.Call) and (norm(v.func) == "dict" or (isinstance(v.func, ast.Attribute) and v.func.attr == "copy")))
+    badr = [r for r in rets if not _fresh(r.value)]
+    chk.ob("S2", "component_registry:all:returns-a-fresh-dict", m.loc(badr[0]) if badr else m.loc(al), bool(rets) and not badr,
+           "all() builds a new dict on every call" if rets and not badr else
+           f"`{short(badr[0]) if badr else 'all()'}` hands out an object the registry keeps (a memo): a caller that pops / adds / clears the dict it got changes what the NEXT all() reports - names that get() does not know, registered names missing - until the next register / unregister")
     ex = [s for s in f.body if isinstance(s, ast.If) and any(isinstance(r, ast.Raise) and "AlreadyRegistered" in norm(r) for r in s.body)]
     okx = bool(ex) and "_class_hash !=" in norm(ex[0].test) and "existing" in norm(ex[0].test)
     chk.ob("S2", "component_registry:register:conflict-test", m.loc(ex[0]) if ex else m.loc(f), okx, "AlreadyRegistered only for a DIFFERENT class under the same name (same class is a no-op re-registration)")
